@@ -23,7 +23,7 @@ GEN = ("wide: tape-decoded legal history (<=40 ops) over [head ->] PIPE (+ up to
        "flush, the type's own control commands with valid and invalid arguments; pool depth 0/1/4, prepend, align generated; the tail releases everything")
 def _ex(prop, scale):
     return dict(name="wide", harness="harness/pipes_wide.c", repo=LIBUPIPE + WIDE, engine=PIPEFIX, cflags=["-DPIPES_PROP=%d" % prop], share=1.0, case_scale=scale)
-ADD = {"C01": [_ex(1, 1.0)], "C04": [_ex(4, 1.5)], "C05": [_ex(5, 1.5)]}
+ADD = {"C01": [_ex(1, 1.0)], "C04": [_ex(4, 1.0)], "C05": [_ex(5, 1.0)]}
 RULE = {
     "C01": GEN + "; every history is executed twice (pool depth 0; pools with ASan-poisoned recycled structures); oracle: ASan, liveness model (a pipe is alive while the application, "
            "the pipe before it or one of its sub-pipes holds it, and dead as soon as nobody does), every READY pipe (inner pipes of bins included) DEAD exactly once, a tracking uref manager "
